@@ -3,7 +3,7 @@
 # applies SEEDED/<X>/patch.diff inside the scratch worktree, confirms tests + demo, runs the checks with VERIF_REPO=<worktree>, reverts.
 wt=$1; x=$2; tier=$3; shift 3
 cd $wt || exit 1
-git checkout -q -- . ; git apply ${SD:-SEEDED}/$x/patch.diff || { echo "patch does not apply"; exit 1; }
+git checkout -q -- . ; git clean -fdq playback ; git apply ${SD:-SEEDED}/$x/patch.diff || { echo "patch does not apply"; exit 1; }
 echo "== $wt $x: $(python3 -c "import json;print(json.load(open('${SD:-SEEDED}/$x/meta.json')).get('summary','')[:160])")"
 if [ "${SKIP_TESTS:-0}" != 1 ]; then
   echo "tests: $(PYTHONPATH=$wt /venv/bin/python -m pytest -q -p no:cacheprovider --timeout=900 --continue-on-collection-errors 2>&1 | tail -1)"
@@ -12,7 +12,7 @@ fi
 for c in "$@"; do
   VERIF_REPO=$wt timeout 3000 /venv/bin/python /verif/check $c --tier $tier 2>&1 | grep -E "^(HELD|VIOLATED|INCONCLUSIVE|VIOLATION)" | cut -c1-200 | (head -2; tail -1)
 done
-git checkout -q -- .
+git checkout -q -- . ; git clean -fdq playback
 if [ "${SKIP_TESTS:-0}" != 1 ]; then
   PYTHONPATH=$wt timeout 300 /venv/bin/python ${SD:-SEEDED}/$x/demo.py > /tmp/vp_demo.$$.out 2>&1; echo "demo without change: exit $?"
 fi
